@@ -97,8 +97,18 @@ def render_node(n, out, number, counter):
         out.append("<?" + n[1] + (" " + n[2] if n[2] else "") + "?>")
 
 
-def render_doc(doc, number=True):
+# an internal DTD subset that declares *element content* for some names: a non-validating Xerces then reports
+# whitespace inside those elements through ignorableWhitespace(), which the source tree stores through a different
+# path (createTextIWSNode) — still text nodes of the data model, still subject to xsl:strip-space
+DTD_DECLS = ('<!ELEMENT a (b|c)*> <!ELEMENT p:a (b|c)*> <!ELEMENT c (a)*> <!ELEMENT r:a (a|b|c|d)*> '
+             '<!ELEMENT b ANY> <!ELEMENT d (#PCDATA|a|b)*>')
+
+
+def render_doc(doc, number=True, dtd=False):
     out = ['<?xml version="1.0" encoding="UTF-8"?>']
+    if dtd:
+        root = [c for c in doc[2] if c[0] == "elem"][0]
+        out.append("<!DOCTYPE %s [ %s ]>" % (qn(root[1], DOC_PREFIX), DTD_DECLS))
     counter = [0]
     for c in doc[2]:
         render_node(c, out, number, counter)
@@ -113,14 +123,26 @@ def hex_units(s):
     return b.hex()
 
 
-def doc_tokens(doc):
+XMLNS = "http://www.w3.org/XML/1998/namespace"
+
+
+def doc_tokens(doc, number=True):
     out = []
+    counter = [0]
 
     def go(n):
         k = n[0]
         if k == "elem":
             out.append("(")
-            out.append("#" if n[1] is None else "%s|%s" % n[1])
+            sp = [v for a, v in n[3] if a == "xml:space"]
+            out.append("#" if n[1] is None else ("%s|%s" % n[1]) + ("" if not sp else "|p" if sp[-1] == "preserve" else "|d"))
+            if n[1] is not None:
+                # the attributes render_doc writes: n="<element number>" first, then the element's own
+                counter[0] += 1
+                if number:
+                    out.append("@|n=" + hex_units(str(counter[0])))
+                for a, v in n[3]:
+                    out.append("@%s|%s=%s" % ((XMLNS, "space", hex_units(v)) if a == "xml:space" else ("", a, hex_units(v))))
             for c in n[2]:
                 go(c)
             out.append(")")
@@ -306,8 +328,13 @@ def render_items(items, files, base, with_decls, counter):
     for it in items:
         if it[0] == "decl":
             if with_decls:
-                out.append('<xsl:%s elements="%s"/>\n' % ("strip-space" if it[1] else "preserve-space",
-                                                          " ".join(nt_xsl(nt) for nt in it[2])))
+                # tokens separated by every kind of XML whitespace (character references survive attribute normalisation)
+                seps = [" ", "  ", "&#10;", "&#9; ", "&#13;&#10;"]
+                toks = [nt_xsl(nt) for nt in it[2]]
+                val = toks[0] + "".join(seps[(len(toks[i]) + i + len(toks)) % len(seps)] + toks[i + 1] for i in range(len(toks) - 1))
+                if len(toks) % 2 == 0:
+                    val = " " + val + "&#10;"
+                out.append('<xsl:%s elements="%s"/>\n' % ("strip-space" if it[1] else "preserve-space", val))
         else:
             counter[0] += 1
             fn = "%s_m%d.xsl" % (base, counter[0])
@@ -531,9 +558,11 @@ def gen_pred(r, d):
 
 def gen_num(r, d, inpred):
     k = r.weighted([("count", 6), ("strlen", 3), ("pos", 2 if inpred is True else 0), ("last", 2 if inpred is True else 0), ("lit", 1),
-                    ("plus", 2), ("minus", 1)])
+                    ("plus", 2), ("minus", 1), ("attr-count", 1)])
     if k == "count":
         return ("count", gen_ns(r, d, inpred))
+    if k == "attr-count":
+        return ("attr-count", gen_ns(r, d, inpred))
     if k == "strlen":
         return ("strlen", gen_str(r, d, inpred))
     if k == "pos":
@@ -549,11 +578,13 @@ def gen_num(r, d, inpred):
 
 def gen_str(r, d, inpred):
     k = r.weighted([("string-ns", 8), ("local-name", 3), ("lit", 2), ("concat", 2), ("string-num", 1), ("string-bool", 1),
-                    ("normalize-space", 2)])
+                    ("normalize-space", 2), ("attr-of", 4)])
     if k == "string-ns" or d <= 0:
         return ("string", gen_ns(r, d, inpred))
     if k == "normalize-space":
         return ("normalize-space", gen_str(r, d - 1, inpred))
+    if k == "attr-of":
+        return ("attr-of", gen_ns(r, d, inpred), ("", r.choice(["n", "n", "n", "m"])))
     if k == "local-name":
         return ("local-name", gen_ns(r, d, inpred))
     if k == "lit":
@@ -648,6 +679,10 @@ def expr_xpath(e):
         return str(e[1])
     if k == "lit":
         return xp_lit(e[1])
+    if k == "attr-of":
+        return "string((%s)/@%s)" % (expr_xpath(e[1]), qn(e[2], XSL_PREFIX))
+    if k == "attr-count":
+        return "count((%s)/@*)" % expr_xpath(e[1])
     if k == "union":
         return "(%s) | (%s)" % (expr_xpath(e[1]), expr_xpath(e[2]))
     if k == "filter":
@@ -670,6 +705,8 @@ def expr_tokens(e):
         return ["num", str(e[1])]
     if k == "lit":
         return ["lit", hex_units(e[1])]
+    if k == "attr-of":
+        return ["attr-of", "%s|%s" % e[2]] + expr_tokens(e[1])
     if k in ("step", "stepP", "stepPP"):
         out = [k, e[2], test_token(e[3])] + expr_tokens(e[1])
         for p in e[4:]:
@@ -720,3 +757,8 @@ def key_body(m, use, lit):
 def number_body(c, f):
     return (OUT_TEXT + '<xsl:template match="/"><xsl:for-each select="//text()|//*"><xsl:number level="any" count="%s"%s/>|'
             '</xsl:for-each></xsl:template>\n' % (test_xpath(c), (' from="%s"' % test_xpath(f)) if f else ""))
+
+
+def numbersm_body(c, f, level):
+    return (OUT_TEXT + '<xsl:template match="/"><xsl:for-each select="//text()|//*"><xsl:number level="%s" count="%s"%s/>|'
+            '</xsl:for-each></xsl:template>\n' % (level, test_xpath(c), (' from="%s"' % test_xpath(f)) if f else ""))
